@@ -103,6 +103,10 @@ WITNESS_TESTS = {
     "file": "witness/c02_router_frame_by_frame_under_hwm.rs", "props": ["C02"], "pairs_fn": ["router_payload_frame"],
     "what": "KNOWN FINDING witness: ROUTER (SNDHWM 4, SNDTIMEO 0) replies frame by frame to a slow DEALER: a refused payload frame leaves a partial message that the next message is glued to",
   },
+  "c02_req_rep_recv_frame_by_frame": {
+    "file": "witness/c02_req_rep_recv_frame_by_frame.rs", "props": ["C02"], "pairs_fn": ["ReqSocket::recv", "RepSocket::recv"],
+    "what": "KNOWN FINDING witness: a two-frame request read with recv() on REP and a two-frame reply read with recv() on REQ: the second frame is lost",
+  },
   "c02_inproc_reader_too_many_frames": {
     "file": "witness/c02_inproc_reader_too_many_frames.rs", "props": ["C02", "C07"], "pairs_fn": ["inproc_reader_body"],
     "what": "PUSH sends 300 MORE frames frame by frame over inproc to a PULL: no panic inside rzmq (panic hook), the connection is closed like over tcp",
@@ -224,6 +228,7 @@ PROPS["C02"] = {
            "(so a PUSH message goes to one peer, and a PUB message is dropped for a slow subscriber as a whole or not at all); a message beyond 255 frames is refused, never sent in part. "
            "ROUTER's frame-by-frame send (unit routersend, the payload branch as a region): a payload frame goes to the connection the identity frame selected, the last frame closes the send in progress, an accepted MORE frame keeps it open "
            "(one known finding: a REFUSED MORE frame closes it and leaves a partial message on the connection). "
+           "REQ / REP recv() (unit reqrep): two known findings -- recv() returns the first payload frame and drops the rest of a multipart message. "
            "inproc (unit inprocrd, the body of the direct-inproc reader task as a region, three nested loops): frames forwarded ++ frames waiting ++ accumulator == frames taken off the channel at every point, however the frames of a message are spread "
            "over wake-ups of the task; only batches ending in a frame without MORE are forwarded; the reassembly never overruns the 255-frame capacity (a longer message closes the connection).",
   "level_note": "Unit anon uses the sequential lock model for the frame cache (one task receives at a time) and an abstract ReadyPipeQueue (its pop order is a ghost sequence; cancel safety of pop() assumed); queued batches are assumed to be whole messages "
